@@ -34,7 +34,9 @@ def gen_cases(ctx):
                      {"kind": "energy", "thr": thr, "mn": 9, "mx": 5}, {"kind": "energy", "thr": thr, "mn": 0, "mx": T + 7}]
         if not ctx.quick:
             for _ in range(10):
-                runs.append({"kind": ctx.rng.choice(["energy", "detector"]), "thr": ctx.rng.choice([0.0, 1e-8, 1e-3, 1e9]),
+                kind = ctx.rng.choice(["energy", "detector"])
+                # (EnergyThresholdCondition rejects a non-positive threshold at construction, by design)
+                runs.append({"kind": kind, "thr": ctx.rng.choice([1e-30, 1e-8, 1e-3, 1e9] if kind == "energy" else [0.0, 1e-8, 1e-3, 1e9]),
                              "mn": ctx.rng.randint(base, T), "mx": ctx.rng.randint(1, T + 10)})
         spec = {"shape": [6, 6, 6], "spacing": 5e-8, "steps": T, "bt": {f: "periodic" for f in ("min_x", "max_x", "min_y", "max_y", "min_z", "max_z")},
                 "sources": [{"kind": "dipole", "cell": [2, 2, 2], "pol": 0, "switch": {"start_time": 0, "end_time": T // 3} if T != 64 else None}],
